@@ -12,7 +12,7 @@ def main():
     checks = sys.argv[3:] or [pid]
     src = '%s/%s/%s' % (os.environ.get('SEED_SRC', '/tmp/seed_out'), pid, var)
     ss = os.environ.get('SEED_SRC', '')
-    dvar = {'A': 'C', 'B': 'D'}[var] if ss.endswith('seed2_out') else ({'A': 'E', 'B': 'F'}[var] if ss.endswith('seed3_out') else ({'A': 'G', 'B': 'H'}[var] if ss.endswith('seed4_out') else var))
+    dvar = {'A': 'C', 'B': 'D'}[var] if ss.endswith('seed2_out') else ({'A': 'E', 'B': 'F'}[var] if ss.endswith('seed3_out') else ({'A': 'G', 'B': 'H'}[var] if ss.endswith('seed4_out') else ({'A': 'I', 'B': 'J'}[var] if ss.endswith('seed5_out') else var)))
     dst = '%s/seeded/%s-%s' % (V, pid, dvar)
     if not os.path.exists(src) and os.path.exists(dst):
         src = dst
@@ -42,9 +42,12 @@ def main():
                     shutil.copy(src + '/' + f, dst + '/' + f)
         head = subprocess.run(['git', '-C', '/repo', 'rev-parse', '--short', 'HEAD'], capture_output=True, text=True).stdout.strip()
         prev = {}
+        keep = {}
         if os.path.exists(dst + '/meta.json'):
             try:
-                prev = json.load(open(dst + '/meta.json')).get('checks_run', {})
+                old_meta = json.load(open(dst + '/meta.json'))
+                prev = old_meta.get('checks_run', {})
+                keep = {k: old_meta[k] for k in ('obsolete', 'rebased', 'note') if k in old_meta}
             except Exception:
                 prev = {}
         prev.update(res)
@@ -55,6 +58,7 @@ def main():
                               'demo_exit_with_change': rc1, 'all_confirmed': confirmed, 'repo_head': head,
                               'how': 'scratch copy of /repo eqsig+tests; git apply patch.diff; pytest; demo.py before/after'},
                 'checks_run': res}
+        meta.update(keep)
         json.dump(meta, open(dst + '/meta.json', 'w'), indent=1)
         print(pid, dvar, 'confirmed=%s' % confirmed, {c: (r['exit'], r['violated_clauses'][:4]) for c, r in res.items()})
     finally:
